@@ -1,7 +1,7 @@
 (* C14 — Client-maintained referrers indexes lose no update under concurrency. *)
 From Oras Require Import Base.Prelude Generated.GC14 Model.Referrers Proofs.Referrers Model.Merge
   Proofs.Merge Proofs.MergeLin Proofs.MergeThm Model.Delivery Proofs.Delivery Model.Live Proofs.Live
-  Model.MergeFine Proofs.MergeFine Proofs.MergeFine2 Proofs.MergeFine3.
+  Model.MergeFine Proofs.MergeFine Proofs.MergeFineWake Proofs.MergeFine2 Proofs.MergeFine3.
 
 (* applyReferrerChanges (position map, tombstones, hint) = set semantics on the
    de-duplicated, non-empty old list; survivors keep their order, additions are
